@@ -142,6 +142,7 @@ struct Exec {
         bool correct;
         bool current;   // belongs to the SASL exchange that is still the current one
         bool sasl2;
+        bool optional = false;   // a stream restart came in between: honouring or dropping the reply are both fine (don't-care)
     };
     QList<ModelReq> modelPending;
     int stanzaCounter = 0;
@@ -404,6 +405,13 @@ struct Exec {
             open = e.a == 0;
             break;
         case Event::Restart:
+            // whether a reply that is still outstanding survives a stream restart is not decided by the property: the connection ends
+            // up authenticated as a user whose password was verified either way
+            for (auto &r : modelPending) {
+                if (r.current) {
+                    r.optional = true;
+                }
+            }
             send(header);
             break;
         case Event::AuthPlain: {
@@ -534,6 +542,22 @@ struct Exec {
             const int k = e.a;
             auto p = checker.pending.takeAt(k);
             const auto mr = modelPending.takeAt(k);
+            if (mr.current && mr.correct && mr.optional) {
+                // adopt the implementation's choice: the exchange counts iff the server answers it with <success/>
+                p.reply->finish();
+                if (!settle()) {
+                    violate(QStringLiteral("harness-settle-timeout"), QStringLiteral("settle timeout"));
+                }
+                bool success = false;
+                for (const auto &it : splitStreamItemsPeek(attBuf)) {
+                    success = success || it.startsWith("<success");
+                }
+                if (success) {
+                    authenticate(mr.user);
+                }
+                witness(success ? "reply_after_restart_honoured" : "reply_after_restart_dropped");
+                break;
+            }
             if (mr.current && mr.correct) {
                 authenticate(mr.user);
             }
